@@ -119,6 +119,10 @@ def run(ctx):
 
     # 6. garbage collection
     r6 = rep.rule('C02.6-garbage-collection', 'R-GUARD', 'cleanup_do/cleanuppid: only files older than OSSIFIED with no info and no todo are handed to qmail-clean; OSSIFIED agrees and exceeds qmail-queue\'s DEATH')
+    # the 24-hour timer of qmail-queue can end it only if SIGALRM is not blocked: the inherited mask is reset
+    from rules import libtab as _lt
+    for inst_, v_ in sorted(_lt.sig_blocknone_sites(db, rep, db.program('qmail-queue')).items()):
+        r6.check(v_[0], inst_, v_[1], v_[2], v_[3])
     attach(r6, qsend.analyse_cleanup_do(db, rep), prefixes=['gc:'])
     oss_s = macro_const(db, 'qmail-send.c', 'OSSIFIED')
     oss_c = macro_const(db, 'qmail-clean.c', 'OSSIFIED')
